@@ -388,7 +388,7 @@ type c02Actor struct {
 
 func runC02(w *mon.Worker) {
 	mon.SetMaxSleep(100 * time.Microsecond)
-	for i := 0; i < w.Share(w.Scale(6400, 160000)); i++ {
+	for i := 0; i < w.Share(w.Scale(6400, 480000)); i++ {
 		rw := i%4 != 0
 		mon.SetProb(0.2, verifhook.BcastEnter, verifhook.BcastExit, verifhook.MutexBlock, verifhook.RWMutexBlock)
 		w.Case("controller", map[string]any{"rwmutex": rw}, func(c *mon.Case) { c02Case(c, rw) })
